@@ -80,7 +80,7 @@ PROPS["C18"] = dict(
     level_note="Bounds: n<=3 (Fair), n<=2 (Rate structure), max<=6 quick / 12 thorough for the PickUp loops. Outside: the numeric value of isDistributionSuitable's percentage test "
                "(only its structure: suitable => non-fatal; monotonicity in the limit is covered for n=1), n>4. v1 utils is a line-for-line copy and is checked by the v1 group.",
     technique="symbolic execution of go/ssa; Int encoding; uninterpreted floats with exact-float refinement (cvc5); contract substitution with an uninterpreted predicate",
-    bounds=dict(quick="Fair n<=3 all permutations, q in uint64; Rate-UF n<=2; PickUp max<=6; non-fatal => accepted: Fair n<=3, Rate n<=2; both modules", thorough="Fair n<=4; Rate exact on [3 2 1],[7 5 3 1],[2 1] with q<16; PickUp max<=12; non-fatal => accepted: Rate n<=3"),
+    bounds=dict(quick="Fair n<=3 all permutations, q in uint64; Rate-UF n<=2; PickUp max<=6; non-fatal => accepted: Fair n<=3, Rate n<=2; both modules", thorough="Fair n<=4; Rate exact on [3 2 1],[7 5 3 1],[2 1] with q<16; PickUp max<=12; non-fatal => accepted: Rate n<=2 (n=3 does not finish)"),
     assumptions=["a sat answer under uninterpreted floats is only a candidate and is refined under exact floats before it is reported",
                  "PickUp loops: max below 2^64-1 (the loop counter would wrap otherwise; outside the stated range 0..300)"],
     groups=[
@@ -114,7 +114,7 @@ PROPS["C18"]["groups"] += _c18v1()
 
 PROPS["C18"]["groups"] += [
     dict(mod="v2", pkg="priority", overlay="harness/v2/priority", harness="^VerifC18_nonfatal_accepted_fair$", params=dict(quick=dict(n=[1, 2, 3]), thorough=dict(n=[1, 2, 3]))),
-    dict(mod="v2", pkg="priority", overlay="harness/v2/priority", harness="^VerifC18_nonfatal_accepted_rate$", approx=True, params=dict(quick=dict(n=[1, 2]), thorough=dict(n=[1, 2, 3]))),
+    dict(mod="v2", pkg="priority", overlay="harness/v2/priority", harness="^VerifC18_nonfatal_accepted_rate$", approx=True, params=dict(quick=dict(n=[1, 2]), thorough=dict(n=[1, 2]))),  # n=3 under uninterpreted floats does not finish within an hour (z3)
 ]
 
 # ---- join / unite / limit ---------------------------------------------------------------------------
